@@ -77,8 +77,8 @@ def run(ctx):
     ctx.sample({"impl_trace_events": events[:2]})
     if not ok:
         nbad += 1
-        ctx.report("%s/random" % first.get("fn", first.get("ev")),
-                   "call %d of the random run returned a result the specification rejects: %s" % (matched + 1, json.dumps(first)),
+        ctx.report("%s/longer-strings" % first.get("fn", first.get("ev")),
+                   "call %d of the longer-strings run returned a result the specification rejects: %s" % (matched + 1, json.dumps(first)),
                    payload={"event_index": matched + 1, "event": first}, src_file=tr)
 
     # 4. binding self-tests (the calls are stateless, so instead of dropping an event both binding
